@@ -28,7 +28,7 @@ META = {
         "converters (read from their match arms in MIR), provenance of constructor index and field order at lowering, and a panic "
         "inventory of the encoding closure. These are necessary conditions of the convention for every type definition and value."),
     "trusted_base": ["rustc MIR, driver", "pallas' CBOR encoding of PlutusData (Constr tag / any_constructor fields)"],
-    "not_decided": ["the numeric tag values and byte layout", "BigInt encoding of integers beyond 64 bits beyond 'does not panic'"],
+    "not_decided": ["the byte layout pallas emits for a PlutusData value (trusted encoder)", "BigInt encoding of integers beyond 64 bits beyond the sign adjustment rule and 'does not panic'"],
 }
 
 EXPR = "tx3_tir::model::v1beta0::Expression"
